@@ -140,7 +140,7 @@ pub fn run_case(toks: &[&str], em: &mut Emitter) {
     em.alloc_limit = 0;
 }
 
-fn emit(em: &mut Emitter, line: String) { let toks: Vec<&str> = line.split(' ').collect(); run_case(&toks, em); }
+pub fn emit(em: &mut Emitter, line: String) { let toks: Vec<&str> = line.split(' ').collect(); run_case(&toks, em); }
 
 pub fn confirm(ty: u8, flags: u8, sel: u32) -> Vec<u8> { refsrv::cat(&[&[0x0e, 0xd0, 0, 0, 0, 0, 0, ty, flags, 8, 0], &refsrv::le32(sel)]) }
 
@@ -183,6 +183,7 @@ pub fn generate_c05(thorough: bool, seed: u64, part: (usize, usize), em: &mut Em
     let gcc_good = refsrv::gcc_response(&p);
     for off in 0..gcc_good.len() { for v in fault_vals { let mut b = gcc_good.clone(); b[off] = *v; emit(em, format!("gcc_ccr {}", hex(&b))); } }
     for cut in 0..gcc_good.len() { emit(em, format!("gcc_ccr {}", hex(&gcc_good[..cut]))); }
+    conforming_channel_lists(em);
     let head = &gcc_good[..23];
     let blocks: Vec<Vec<u8>> = vec![
         refsrv::cat(&[&[0x01, 0x0c, 0x0c, 0x00], &refsrv::le32(0x00080004), &refsrv::le32(1)]),
@@ -227,4 +228,14 @@ pub fn generate_c05(thorough: bool, seed: u64, part: (usize, usize), em: &mut Em
         if !thorough && a % 5 != 0 && a != 0x3e && a != 0x3f { continue; }
         emit(em, format!("mcs_conn cr={} au={} jm=raw:{}", hex(&cr_good), hex(&au_good), hex(&refsrv::cat(&[&[a], tail]))));
     } }
+}
+
+/// conforming responses announcing 0..=5 static channels (odd counts carry the 2-byte pad),
+/// three reported versions
+pub fn conforming_channel_lists(em: &mut Emitter) {
+    for n in 0..=5usize { for &ver in &[0x00080004u32, 0x00080001, 0x00080005] { for pad in &[true, false] {
+        let p = SrvParams { version: ver, ..Default::default() };
+        let ids: Vec<u16> = (0..n).map(|i| 1004 + i as u16).collect();
+        emit(em, format!("gcc_ccr {}", hex(&refsrv::gcc_response_channels(&p, &ids, *pad))));
+    } } }
 }
